@@ -1017,8 +1017,30 @@ func runC13(o *opts) error {
 	if o.get("mode", "") == "child" {
 		return c13ChildMain(o)
 	}
-	var lines []string
+	// a runaway allocation (a reader trusting a stored length) must fail this process, not the machine
+	lim := uint64(o.getInt("aslimit_mb", 24576)) << 20
+	_ = syscall.Setrlimit(syscall.RLIMIT_AS, &syscall.Rlimit{Cur: lim, Max: lim})
 	stats := map[string]int{}
+	env := &c13Env{}
+	if err := env.open(o.out); err != nil {
+		return err
+	}
+	defer env.close()
+	cases := newLineWriter(o.out, "cases.txt")
+	impl := newLineWriter(o.out, "impl.txt")
+	defer cases.close()
+	defer impl.close()
+	// pure decoder cases go to a child process (after everything else); the rest runs here, streamed
+	var childLines []string
+	sink := func(l string) {
+		stats["kind_"+l[:1]]++
+		if c13IsChildKind(l[:1]) {
+			childLines = append(childLines, l)
+			return
+		}
+		cases.line("%s", l)
+		impl.line("%s", env.exec(l))
+	}
 	if rc := o.get("replaycase", ""); rc != "" {
 		data, err := os.ReadFile(rc)
 		if err != nil {
@@ -1026,48 +1048,20 @@ func runC13(o *opts) error {
 		}
 		for _, l := range strings.Split(string(data), "\n") {
 			if strings.TrimSpace(l) != "" {
-				lines = append(lines, strings.TrimSpace(l))
+				sink(strings.TrimSpace(l))
 			}
 		}
 	} else {
-		lines = c13Generate(o, stats)
+		c13Generate(o, stats, sink)
 	}
-	// pure decoder cases go to the child, everything else runs here
-	var childLines []string
-	var childIdx []int
-	for i, l := range lines {
-		if c13IsChildKind(l[:1]) {
-			childLines = append(childLines, l)
-			childIdx = append(childIdx, i)
-		}
-	}
-	results := make([]string, len(lines))
 	childRes, err := c13RunInChild(o, childLines)
 	if err != nil {
 		return err
 	}
-	for k, i := range childIdx {
-		results[i] = childRes[k]
-	}
-	env := &c13Env{}
-	if err := env.open(o.out); err != nil {
-		return err
-	}
-	defer env.close()
-	for i, l := range lines {
-		if results[i] == "" {
-			results[i] = env.exec(l)
-		}
-	}
-	cases := newLineWriter(o.out, "cases.txt")
-	impl := newLineWriter(o.out, "impl.txt")
-	for i, l := range lines {
+	for k, l := range childLines {
 		cases.line("%s", l)
-		impl.line("%s", results[i])
-		stats["kind_"+l[:1]]++
+		impl.line("%s", childRes[k])
 	}
-	cases.close()
-	impl.close()
 	writeJSON(o.out, "stats.json", stats)
 	return nil
 }
